@@ -114,7 +114,9 @@ class BatchingMutexPrimitiveJobRunner(Generic[PUBTYPE, PUBRESULT]):
             # If acquiring both locks was unsuccessful, wait to be notified of entry availability.
             if not acquired_both_locks:
                 with self._external_wait_condition:
-                    self._external_wait_condition.wait()
+                    # The notification may already have been sent between the release of the _entry_lock and here.
+                    # Therefore, do not wait indefinitely, but retry regularly.
+                    self._external_wait_condition.wait(0.5)
 
         # Wait for the given duration so that other threads may have time to enter.
         if self.batch_waiting_duration is not None:
